@@ -655,6 +655,9 @@ class IH5Group(IH5InnerNode):
         return h5_copy_from_to(src_node, cast(Any, dst_group), dst_name, **kwargs)
 
     def move(self, source: str, dest: str):
+        if self._abs_path(source) == self._abs_path(dest):
+            self[source]  # must exist, but there is nothing to do (just like in h5py)
+            return
         self.copy(source, dest)
         del self[source]
 
